@@ -535,16 +535,17 @@ class RelativeJSONPointer:
         else:
             index = 0
 
-        # Pointer or '#'. Empty string is OK.
-        _pointer = match.group("POINTER").strip()
+        # Pointer or '#'. Empty string is OK. Trailing white space is part of
+        # the last reference token of a pointer.
+        _pointer = match.group("POINTER")
         pointer = (
             JSONPointer(
                 _pointer,
                 unicode_escape=unicode_escape,
                 uri_decode=uri_decode,
             )
-            if _pointer != "#"
-            else _pointer
+            if _pointer.strip() != "#"
+            else "#"
         )
 
         return (origin, index, pointer)
@@ -561,13 +562,9 @@ class RelativeJSONPointer:
             ) from err
 
     def _int_like(self, obj: Any) -> bool:
-        if isinstance(obj, int):
-            return True
-        try:
-            int(obj)
-        except ValueError:
-            return False
-        return True
+        # Only canonical decimal integers are array indices. `int()` alone would
+        # also accept things like "+1", " 1", "1_0", "01" and non-ASCII digits.
+        return isinstance(obj, int) or bool(RE_INDEX.fullmatch(obj))
 
     def to(
         self,
@@ -605,12 +602,18 @@ class RelativeJSONPointer:
 
         # Array index offset
         if self.index and parts and self._int_like(parts[-1]):
-            new_index = int(parts[-1]) + self.index
+            try:
+                new_index = int(parts[-1]) + self.index
+                parts[-1] = str(new_index)
+            except ValueError as err:
+                # More digits than Python's integer string conversion limit allows.
+                raise RelativeJSONPointerIndexError(
+                    "index offset out of range"
+                ) from err
             if new_index < 0:
                 raise RelativeJSONPointerIndexError(
                     f"index offset out of range {new_index}"
                 )
-            parts[-1] = int(parts[-1]) + self.index
 
         # Pointer or index/property
         if isinstance(self.pointer, JSONPointer):
@@ -623,9 +626,9 @@ class RelativeJSONPointer:
                 )
             parts[-1] = f"#{parts[-1]}"
 
-        return JSONPointer.from_parts(
-            parts, unicode_escape=unicode_escape, uri_decode=uri_decode
-        )
+        # The reference tokens of _pointer_ and of this relative pointer have
+        # been decoded already. Don't decode them again.
+        return JSONPointer.from_parts(parts, unicode_escape=False, uri_decode=False)
 
 
 def resolve(
